@@ -45,6 +45,7 @@ ASSUMPTIONS = [
 ]
 MIN_NONTRIVIAL = {"quick": 400, "thorough": 5000}
 TIMEOUT = {"quick": 1500, "thorough": 10800}
+AMBIENT = {"tests": ['test_ode.py'], "monitors": ['epq'], "quick": False}
 
 EPS = 2.220446049250313e-16
 THETA9 = 2.097847961257068
